@@ -68,6 +68,11 @@ def judge_simple(stats: Stats, text, doc, ctx, origin):
         return None
     stats.ev()
     base = outcome(lambda: [(m.obj, m.path) for m in path.finditer(doc, filter_context=ctx)])
+    # the match of a bare fake root is the wrapper list itself, made afresh by every evaluation: equal, never identical
+    import re as _re
+    bare_fake = any(op.strip() == "^" for op in _re.split(r"[|&]", text))
+    same_vals = vals_jeq if bare_fake else vals_same
+    same_one = jeq if bare_fake else lib.same_node
     routes = {
         "path.findall": lambda: path.findall(doc, filter_context=ctx),
         "env.findall": lambda: env.findall(text, doc, filter_context=ctx),
@@ -83,7 +88,7 @@ def judge_simple(stats: Stats, text, doc, ctx, origin):
         got = outcome(fn)
         if base[0] != got[0] or (base[0] == "err" and base[1] != got[1]):
             stats.fail("entry:%s:error-vs-result" % name.split(".")[1], case, "finditer -> %s but %s -> %s" % (short(base, 120), name, short(got, 120)))
-        elif base[0] == "ok" and not vals_same([b[0] for b in base[1]], got[1]):
+        elif base[0] == "ok" and not same_vals([b[0] for b in base[1]], got[1]):
             stats.fail("entry:%s:values" % name.split(".")[1], case, "%s(%r) gives %s, finditer gives %s" % (name, text, short(got[1], 160), short([b[0] for b in base[1]], 160)))
     for name, fn in (("path.match", lambda: path.match(doc, filter_context=ctx)), ("env.match", lambda: env.match(text, doc, filter_context=ctx)),
                      ("module.match", lambda: jsonpath.match(text, doc, filter_context=ctx))):
@@ -98,7 +103,7 @@ def judge_simple(stats: Stats, text, doc, ctx, origin):
         elif not base[1]:
             if got[1] is not None:
                 stats.fail("entry:match:not-none", case, "%s(%r) = %s for an empty result" % (name, text, got[1]))
-        elif got[1] is None or not lib.same_node(got[1].obj, base[1][0][0]) or got[1].path != base[1][0][1]:
+        elif got[1] is None or not same_one(got[1].obj, base[1][0][0]) or got[1].path != base[1][0][1]:
             stats.fail("entry:match:not-first", case, "%s(%r) is %s, first of finditer is %s at %s" % (
                 name, text, None if got[1] is None else (short(got[1].obj, 60), got[1].path), short(base[1][0][0], 60), base[1][0][1]))
     return base
@@ -290,8 +295,32 @@ def t_operators():
     return stats
 
 
+DEGENERATE_QUERIES = ["$", "", " $", "$ ", "^", "$.*", "$..*", "$[0]", "$[*]", "$..[0]", "$[?@]", "$[?@ > 1]", "^[?@ > 1]", "^[?@]", "^[0]", "^.*", "^..*", "^[*]",
+                      "^[0][0]", "^[?@ > 1] | $", "$ | $", "$ & $", "^ | ^", "$ | ^[0]", "^[0] & $", "$.* | $", "$ | $.* | $..*", "$..* & $.*",
+                      "$[?@ == _.k]", "$[?_.k]", "^[?@ == _.k]", "$[?@ == _.k] | $.a", "$.a | $[?@ == _.k]", "$[?_.k] & $[*]", "$[*] & $[?_.k]",
+                      "$[?@ == _.k] | $[?@ != _.k] | $[?_.missing]", "^[?_.k == @] & ^[*]", "$..[?@ == _.k] | $"]
+DEGENERATE_DOCS = [5, 1.5, 0, -1, True, False, None, [], {}, [5], [1, 5, [5]], {"a": 1}, {"a": 5, "b": [1]}, [[]], [{}], [None], [True, 1], {"k": 1}]
+
+
+def t_degenerate():
+    """queries with no segment at all, fake-root queries and compound queries (with and without the filter-context identifier)
+    on scalar, empty and tiny documents, through every entry point"""
+    stats = Stats()
+    n = 0
+    for text, doc, ctx in itertools.product(DEGENERATE_QUERIES, DEGENERATE_DOCS, (None, {"k": 1}, {"k": 5, "missing": None})):
+        if ctx is None and "_" in text and False:
+            continue
+        base = judge_simple(stats, text, doc, ctx, "degenerate")
+        n += 1
+        if base is not None and base[0] == "ok" and base[1]:
+            stats.nt("degenerate", text, canon(doc), canon(ctx))
+    stats.subspaces.append({"name": "38 segment-less / fake-root / compound / context-reading queries x 18 scalar, empty and tiny documents x 3 filter contexts x 14 entry points",
+                            "size": n, "exhaustive": True})
+    return stats
+
+
 def tasks(tier, seed):
-    ts = [{"name": "operators", "fn": "t_operators"}]
+    ts = [{"name": "operators", "fn": "t_operators"}, {"name": "degenerate", "fn": "t_degenerate"}]
     n = 1500 if tier == "quick" else 25000
     for k in range(15):
         ts.append({"name": "random-%d" % k, "fn": "t_random", "kw": {"seed": mix(seed, ID, k), "n": n}})
